@@ -495,7 +495,7 @@ namespace smt
             _preds[vars.first][vars.second] = pred;
         for (const auto &[vars, dist] : layers.back().old_constrs)
             if (dist) // we replace the current constraint..
-                dist_constr.emplace(vars, dist);
+                dist_constr[vars] = dist;
             else // we make some cleanings..
                 dist_constr.erase(vars);
         layers.pop_back();
@@ -611,7 +611,7 @@ namespace smt
     {
         if (!layers.empty() && !layers.back().old_preds.count({from, to}))
             // we store the current values for backtracking purposes..
-            layers.back().old_preds.insert({{from, to}, from});
+            layers.back().old_preds.insert({{from, to}, _preds[from][to]});
         // we update the predecessor..
         _preds[from][to] = pred;
     }
